@@ -428,7 +428,11 @@ fn run_c16(ctx: &mut Ctx) {
 }
 
 fn alphabet() -> Vec<Call> {
-    let args = [Arg::K(0), Arg::K(1), Arg::K(2), Arg::Rem(-1), Arg::Rem(0), Arg::Rem(1), Arg::Max(0), Arg::Max(1), Arg::MaxMinusStart(0), Arg::MaxMinusStart(1)];
+    // 62/63/64: the distances at which a 64-bit storage word is used up
+    let args = [
+        Arg::K(0), Arg::K(1), Arg::K(2), Arg::K(62), Arg::K(63), Arg::K(64), Arg::Rem(-2), Arg::Rem(-1), Arg::Rem(0), Arg::Rem(1), Arg::Max(0), Arg::Max(1),
+        Arg::MaxMinusStart(0), Arg::MaxMinusStart(1),
+    ];
     let mut v = vec![Call::Next, Call::NextBack, Call::SizeHint];
     for a in args {
         v.push(Call::Nth(a));
@@ -444,8 +448,8 @@ fn run_c17(ctx: &mut Ctx) {
     let depth = tier.pick(2, 3, 4);
     let lens: Vec<usize> = match tier {
         Tier::Tiny => vec![0, 3, 9],
-        Tier::Quick => vec![0, 1, 2, 3, 5, 9],
-        Tier::Thorough => vec![0, 1, 2, 3, 4, 5, 8, 9, 17, 20],
+        Tier::Quick => vec![0, 1, 2, 3, 5, 9, 64, 65, 128],
+        Tier::Thorough => vec![0, 1, 2, 3, 4, 5, 8, 9, 17, 20, 63, 64, 65, 127, 128, 129, 192],
     };
     // every call sequence up to `depth`, then each terminal
     let mut seqs: Vec<Vec<Call>> = vec![vec![]];
@@ -477,6 +481,10 @@ fn run_c17(ctx: &mut Ctx) {
                     continue;
                 }
                 if tier == Tier::Tiny && s.len() == depth && (si + ty + n) % 4 != 0 {
+                    continue;
+                }
+                // word-sized vectors: complete to depth - 1 (quick), full depth in thorough
+                if *n >= 63 && tier != Tier::Thorough && s.len() == depth {
                     continue;
                 }
                 let mode = (si + ty) % 3;
